@@ -14,6 +14,7 @@ import (
 	"sort"
 	"strings"
 	"sync"
+	"syscall"
 	"time"
 )
 
@@ -197,6 +198,17 @@ func (r *Report) Write(o *Oracle) {
 	if err := os.WriteFile(*Out, b, 0o644); err != nil {
 		Fatal("report: %v", err)
 	}
+}
+
+// Supervised marks a child process so that it dies with this process: a guest spinning in native code cannot be
+// interrupted from inside, and a check that is itself killed (timeout of the caller) must not leave such children
+// behind.
+func Supervised(cmd *exec.Cmd) *exec.Cmd {
+	if cmd.SysProcAttr == nil {
+		cmd.SysProcAttr = &syscall.SysProcAttr{}
+	}
+	cmd.SysProcAttr.Pdeathsig = syscall.SIGKILL
+	return cmd
 }
 
 func Rand() *rand.Rand { return rand.New(rand.NewSource(*Seed)) }
